@@ -64,7 +64,35 @@ pub fn case(t: &mut Tape, scratch: &Scratch) -> CaseResult {
         let _ = std::fs::remove_dir_all(&out);
         // half of the exports go into a directory that still holds the files of an earlier, larger export
         // (build scripts write into a directory that is kept between builds)
-        let stale = t.coin();
+        let stale_mode = t.pick(3);
+        let stale = stale_mode == 1;
+        if stale_mode == 2 {
+            // an earlier export of almost the same project: same file names, same byte lengths, one letter different
+            let d3 = dir.clone();
+            let o3 = out.clone();
+            let _ = std::panic::catch_unwind(move || {
+                if let Ok(infos) = leptos_i18n_build::TranslationsInfos::parse_at_dir(d3) {
+                    let _ = infos.get_translations().write_to_dir(o3);
+                }
+            });
+            fn flip(dir: &std::path::Path) {
+                let Ok(rd) = std::fs::read_dir(dir) else { return };
+                for e in rd.flatten() {
+                    let p = e.path();
+                    if p.is_dir() {
+                        flip(&p);
+                    } else if let Ok(txt) = std::fs::read_to_string(&p) {
+                        // replace the first ASCII letter by another one (same length, still valid JSON)
+                        if let Some(i) = txt.char_indices().find(|(_, c)| c.is_ascii_alphabetic() && *c != 'u' && *c != 'n' && *c != 'r' && *c != 't' && *c != 'b' && *c != 'f').map(|(i, _)| i) {
+                            let mut b = txt.into_bytes();
+                            b[i] = if b[i] == b'x' { b'y' } else { b'x' };
+                            let _ = std::fs::write(&p, b);
+                        }
+                    }
+                }
+            }
+            flip(&out);
+        }
         if stale {
             for ns in p.ns_list() {
                 let Some((locales, _)) = loaded.top(ns.as_deref()) else { continue };
@@ -162,7 +190,7 @@ pub fn run(mut ctx: Ctx) -> ! {
          Literal::String(s,i) of every (sub)locale satisfies strings[i]==s; (2) each table, as a set, equals the literal texts the AST \
          yields for that locale's own keys, without duplicates; (3) every nested Locale carries its top locale's table length; \
          (4) TranslationsInfos::get_translations().write_to_dir() writes <ns>/<locale>.json files that parse as JSON arrays equal to \
-         the tables, into a fresh directory or (half of the cases) over the files of an earlier, larger export. non-trivial = a table with >=2 strings in a project with a defaulted key, a reference, namespaces, or a string \
+         the tables, into a fresh directory, over the files of an earlier, larger export, or over an earlier export of the same byte length that differs in one letter (a third of the cases each). non-trivial = a table with >=2 strings in a project with a defaulted key, a reference, namespaces, or a string \
          needing JSON escapes; distinct = project hash",
         &["the dynamic_load code path that reads the tables at run time is covered by the generated-crate tier"],
         20,
